@@ -15,17 +15,18 @@ ID = "C15"
 LEVEL = "exploration"
 EXHAUSTIVE = True
 RULE = (
-    "Core, exhaustive: every subset of size <= 6 of a 21-colour universe (3 RGBA values x palette index None/0..5) is fed to "
+    "Core, exhaustive: every subset of size <= 6 of a 21-colour universe (3 RGBA values x palette index None/0..5), and every subset of size <= 5 of "
+    "the 28-colour universe that adds half-transparent red (same RGB as red, other alpha) and contains one of the added colours, is fed to "
     "uniq_sort_cpal_colors, also as a permuted list with duplicates; the statement is evaluated as a predicate (error iff two "
     "different colours claim one index; every colour present; indexed colour at its index; unindexed colours in the lowest free "
-    "slots; other slots opaque black; never empty; length = highest used slot + 1; order independence). Extension: Hypothesis "
+    "slots; other slots opaque black; never empty; length = highest used slot + 1; the same result for five different input orders). Extension: Hypothesis "
     "draws sets of up to 40 colours with indices up to 300 and arbitrary RGBA, and small source sets (fills and gradient stops "
     "using indexed, unindexed, translucent and currentColor colours) built as COLRv0 and COLRv1 fonts, where CPAL/COLR are read "
     "back from the binary: one palette, v1 entries opaque with alpha on the paint, v0 alpha in the entry, currentColor -> 0xFFFF, "
     "var(--colorN,c) at entry N, every colour index resolving to the source colour. Non-trivial: a set with an indexed and an "
     "unindexed colour and a gap or a same-RGB indexed/unindexed pair, or a font with >= 2 colours incl. an indexed or translucent one."
 )
-ASSUMPTIONS = ["fontTools decompiles CPAL/COLR correctly", "the exhaustive universe is 21 colours, subsets of size <= 6 (82 160 sets)"]
+ASSUMPTIONS = ["fontTools decompiles CPAL/COLR correctly", "the exhaustive universes: 21 colours, subsets of size <= 6 (82 160 sets) + 28 colours, subsets of size <= 5 with an alpha-only variant (94 542 sets)"]
 BUDGET = {"quick": 1600, "thorough": 60000}
 TIMEOUT = {"quick": 600, "thorough": 3600}
 
@@ -38,11 +39,21 @@ def setup_worker():
     build.init()
 
 
+# a fourth value that differs from the first in alpha only (COLRv0 keeps alpha in the palette entry: red and half-transparent red
+# are two colours there, and anything that compares RGB alone cannot order or tell them apart)
+EXTRA = [[255, 0, 0, 0.5, idx] for idx in [None, 0, 1, 2, 3, 4, 5]]
+
+
 def enumerate_cases(tier):
     n = len(UNIVERSE)
     for k in range(0, 7):
         for sub in itertools.combinations(range(n), k):
             yield {"t": "set", "colors": [UNIVERSE[i] for i in sub], "perm": "rev-dup"}
+    both = UNIVERSE + EXTRA
+    for k in range(1, 6):
+        for sub in itertools.combinations(range(len(both)), k):
+            if sub[-1] >= n:  # at least one of the alpha-only variants
+                yield {"t": "set", "colors": [both[i] for i in sub], "perm": "rev-dup"}
 
 
 color_st = st.tuples(
@@ -213,13 +224,19 @@ def judge_set(case, v):
         alt = [cols[i] for i in perm if i < len(cols)]
         if {tuple(c) for c in alt} != {tuple(c) for c in cols}:
             alt = alt + cols
-    try:
-        res2 = uniq_sort_cpal_colors(alt)
-    except Exception as e:
-        v.fail("order-dependence", "permuted input raises", {"colors": raw, "error": repr(e)})
-        return
-    if [tuple(c) for c in res2] != [tuple(c) for c in res]:
-        v.fail("order-dependence", "result depends on input order", {"colors": raw, "a": R, "b": [tuple(c)[:4] for c in res2]})
+    alts = [alt]
+    if len(cols) >= 2:
+        # the set the function builds iterates in an order that depends on insertion history: try a few more histories
+        alts += [cols[1:] + cols[:1], sorted(cols, key=lambda c: (c[3], c[0], c[1], c[2], -1 if c[4] is None else c[4])), sorted(cols, key=lambda c: (-c[3], c[2], c[1], c[0]))]
+    for alt in alts:
+        try:
+            res2 = uniq_sort_cpal_colors(alt)
+        except Exception as e:
+            v.fail("order-dependence", "permuted input raises", {"colors": raw, "error": repr(e)})
+            return
+        if [tuple(c) for c in res2] != [tuple(c) for c in res]:
+            v.fail("order-dependence", "result depends on input order", {"colors": raw, "a": R, "b": [tuple(c)[:4] for c in res2]})
+            return
 
 
 def judge_font(case, v):
